@@ -918,12 +918,17 @@ fn view_key_checks(
 					1,
 				);
 				run.violation(
-					&format!(
-						"check=viewkey_rewind;switch={};amount={};got={}",
-						sws,
-						if c.amount == 0 { "zero" } else { "nonzero" },
-						r.tag()
-					),
+					// one signature per root cause: Regular switch commitments are not implemented
+					// in ViewKey::commit (any amount); None-mode signatures carry the amount class;
+					// returned-but-wrong data is a different defect from "nothing recovered".
+					&match (&r, c.sw) {
+						(Rw::Wrong(k, _), _) => format!("check=viewkey_rewind;switch={};event=wrong_data:{}", sws, k),
+						(_, SwitchCommitmentType::Regular) => "check=viewkey_rewind;switch=Regular;event=no_recovery".to_string(),
+						(_, SwitchCommitmentType::None) => format!(
+							"check=viewkey_rewind;switch=None;amount={};event=no_recovery",
+							if c.amount == 0 { "zero" } else { "nonzero" }
+						),
+					},
 					&format!(
 						"matching view key ({}, depth {}) did not recover (amount, path, mode) = ({}, {}, {}): {} {}",
 						vk_kind, vk.depth, c.amount, id, sws, r.tag(), r.detail()
@@ -2177,10 +2182,10 @@ fn main() {
 			a_random_paths: 25,
 			a_boundary_depth: 2,
 			a_boundary_samples: 40,
-			b_cases: 1800,
-			c_cases: 24_000,
-			d_cases: 320,
-			e_cases: 1500,
+			b_cases: 1500,
+			c_cases: 20_000,
+			d_cases: 280,
+			e_cases: 1200,
 			a_secs: 22,
 			b_secs: 35,
 			c_secs: 6,
@@ -2288,62 +2293,6 @@ fn main() {
 	run.assume("LegacyProofBuilder round trip is asserted only inside its documented domain (depth-3 path, Regular switch); outside it only 'never returns wrong data'");
 	run.assume("a view key 'matches' an output when it was created from the same keychain at a prefix node of the output's path and all remaining path components are non-hardened (BIP32 public derivation)");
 	run.assume("sums that are 0 mod n may be reported as Err(InvalidSecretKey) or as the zero blinding factor (documented zero handling)");
-
-	if std::env::var("C20_BENCH").is_ok() {
-		fn cpu() -> f64 {
-			let mut ts = libc::timespec { tv_sec: 0, tv_nsec: 0 };
-			unsafe { libc::clock_gettime(libc::CLOCK_THREAD_CPUTIME_ID, &mut ts) };
-			ts.tv_sec as f64 + ts.tv_nsec as f64 * 1e-9
-		}
-		let kc = &kcs[0];
-		for depth in [0u8, 1, 4] {
-			let id = ExtKeychain::derive_key_id(depth, 1, 2, 3, 4);
-			let t = cpu();
-			for i in 0..50 {
-				let _ = kc.derive_key(i, &id, SwitchCommitmentType::Regular).unwrap();
-			}
-			println!("derive_key depth {} : {:.3} ms", depth, (cpu() - t) * 1000.0 / 50.0);
-		}
-		let t = cpu();
-		for _ in 0..20 {
-			let _ = ExtKeychain::from_seed(&seeds[0].bytes, false).unwrap();
-		}
-		println!("from_seed: {:.3} ms", (cpu() - t) * 1000.0 / 20.0);
-		let id = ExtKeychain::derive_key_id(3, 1, 2, 3, 0);
-		let b = AnyBuilder::new(BKind::New, kc);
-		let c = kc.commit(5, &id, SwitchCommitmentType::None).unwrap();
-		let t = cpu();
-		let mut pr = None;
-		for _ in 0..10 {
-			pr = Some(proof::create(kc, &b, 5, &id, SwitchCommitmentType::None, c, None).unwrap());
-		}
-		println!("proof create: {:.3} ms", (cpu() - t) * 1000.0 / 10.0);
-		let pr = pr.unwrap();
-		let t = cpu();
-		for _ in 0..10 {
-			proof::verify(kc.secp(), c, pr, None).unwrap();
-		}
-		println!("proof verify: {:.3} ms", (cpu() - t) * 1000.0 / 10.0);
-		let t = cpu();
-		for _ in 0..10 {
-			proof::rewind(kc.secp(), &b, c, None, pr).unwrap().unwrap();
-		}
-		println!("proof rewind: {:.3} ms", (cpu() - t) * 1000.0 / 10.0);
-		for ph in [1usize, 2, 3, 4] {
-			let t = cpu();
-			let n = 8;
-			for i in 0..n {
-				match ph {
-					1 => proof_case(&ctx, i * 7),
-					2 => blind_case(&ctx, i),
-					3 => builder_case(&ctx, i),
-					_ => aggsig_case(&ctx, i),
-				}
-			}
-			println!("phase {} case: {:.3} ms", ph, (cpu() - t) * 1000.0 / n as f64);
-		}
-		return;
-	}
 
 	let t0 = Instant::now();
 	if ctx.wants("determinism") {
